@@ -138,6 +138,38 @@ fn generate(scen_seed: u64) -> Scenario {
         // (the register stress runs before the threads start, in a third of these scenarios too)
         return Scenario { pass: rng.chance(1, 3), register: rng.chance(1, 3), first_touch: false, threads };
     }
+    if rng.chance(1, 8) {
+        // state left behind on a std stream: one thread's macro print ends inside an escape sequence,
+        // the others' macro prints on the same stream begin with plain text.  Every record must come
+        // out whole - nothing one print leaves dangling may reach into another thread's record.
+        let err = rng.chance(1, 2);
+        let text_first = |rng: &mut Rng, t: usize, c: usize| -> Vec<String> {
+            let mut v = frags(rng, t, c);
+            if !v[0].starts_with('<') {
+                v.swap(0, 1);
+            }
+            v
+        };
+        let mut dangling = text_first(&mut rng, 0, 0);
+        let n = dangling.len();
+        dangling[n - 2] = ">".into();
+        dangling[n - 1] = (*rng.pick(&["\x1b[", "\x1b[38;5", "\x1b]0;title", "\x1bP1;2q#", "\x1b"])).into();
+        let mut threads = vec![vec![Call { kind: if err { Kind::Eprint } else { Kind::Print }, frags: dangling, nested: vec![] }]];
+        for t in 1..rng.range(3, 4) {
+            let mut calls = Vec::new();
+            for c in 0..rng.range(1, 3) {
+                let kind = match (err, rng.chance(1, 2)) {
+                    (false, false) => Kind::Print,
+                    (false, true) => Kind::Println,
+                    (true, false) => Kind::Eprint,
+                    (true, true) => Kind::Eprintln,
+                };
+                calls.push(Call { kind, frags: text_first(&mut rng, t, c), nested: vec![] });
+            }
+            threads.push(calls);
+        }
+        return Scenario { pass: rng.chance(1, 4), register: false, first_touch: false, threads };
+    }
     let nthreads = rng.range(2, 4);
     let register = rng.chance(1, 3);
     let mut threads = Vec::new();
@@ -794,10 +826,20 @@ fn expected(sc: &Scenario, call: &Call) -> Option<(bool, Vec<Vec<u8>>)> {
         _ => return None,
     };
     let stripped = strip(&raw).into_bytes();
+    // a line-ending call whose text ends inside a string sequence: stripping text and newline
+    // together swallows the newline, stripping the text and then adding the newline (what the
+    // macros' capture path does) keeps it.  Both are one contiguous block; which one is not this
+    // property's business
+    let stripped_then_nl = raw.strip_suffix('\n').map(|body| (strip(body) + "\n").into_bytes());
     let raw = raw.into_bytes();
     // which rendering a call produces (stripped or raw) is a question of *mode* - C08/C09 - not
     // of contiguity: either is accepted, preferring the one the scenario's mode predicts
-    let forms = if sc.pass { vec![raw, stripped] } else { vec![stripped, raw] };
+    let mut forms = if sc.pass { vec![raw, stripped] } else { vec![stripped, raw] };
+    if let Some(f) = stripped_then_nl {
+        if !forms.contains(&f) {
+            forms.push(f);
+        }
+    }
     Some((err, forms))
 }
 
